@@ -366,6 +366,10 @@ impl NNum {
             }
             (NNum::Int(a), NNum::Float(b)) => powf_pdnum(nint_to_f64_or_inf(a), *b),
 
+            // like 0 ^ (-1) on integers, and like 1 / 0
+            (NNum::Rational(a), NNum::Int(b)) if a.is_zero() && b.is_negative() => {
+                NNum::Float(f64::INFINITY)
+            }
             (NNum::Rational(a), NNum::Int(b)) => NNum::from(Pow::pow(&**a, &*b.to_bigint())),
             (NNum::Rational(a), NNum::Rational(b)) => {
                 powf_pdnum(rational_to_f64_or_inf(a), rational_to_f64_or_inf(b))
